@@ -648,9 +648,16 @@ func (m *Machine) runBlocks(fr *frame) {
 			fr.visits = map[*ssa.BasicBlock]int{}
 		}
 		fr.visits[fr.block]++
-		if fr.visits[fr.block] > m.cfg.Unwind {
+		limit := m.cfg.Unwind
+		if v, ok := m.cfg.Params["unwind:"+fr.fn.Name()]; ok {
+			limit = v
+		}
+		if fr.visits[fr.block] > limit {
 			m.unwindCut++
-			panic(&abortPath{"unwind", fmt.Sprintf("block %d of %s visited more than %d times", fr.block.Index, fr.fn, m.cfg.Unwind)})
+			if m.cfg.Params["unwind_expected"] == 1 {
+				panic(&abortPath{"bound", fmt.Sprintf("stated unwinding bound reached: block %d of %s visited more than %d times", fr.block.Index, fr.fn, limit)})
+			}
+			panic(&abortPath{"unwind", fmt.Sprintf("block %d of %s visited more than %d times", fr.block.Index, fr.fn, limit)})
 		}
 		next := m.runBlock(fr)
 		if next == nil {
